@@ -63,6 +63,26 @@ def cases(tier, seed):
         for j in range(k):
             cs.append({'gen': 'prod', 'routine': routine, 'M': M, 'N': N, 'K': [2] * (d - 1) + [1], 'RA': [1] + [4] * (d - 1) + [1], 'RB': [1] + [4] * (d - 1) + [1], 'vals': 'gauss',
                        'eps': 10 ** rng.uniform(-10, -6), 'guess': ['none', 'user'][i % 2], 'dtype': 'f64', 'vseed': rng.randrange(2 ** 40), 'RG': [1] + [2] * (d - 1) + [1], 'sidx': j, 'scale': 1.0})
+    # directed: the low end of the eps range on operands whose bond weights span twelve orders (deep4): components between 1e-12 and 1e-10 of the product must survive
+    for i in range(12 if not T else 96):
+        routine = ROUTINES[i % 4]
+        d = rng.choice([4, 4, 5])        # interior bonds that can carry the 8 product weights (a mode of size <= 6 caps the outer bonds)
+        M = [rng.randint(4, 6) if d == 4 else rng.randint(3, 4) for _ in range(d)]
+        N = [rng.randint(4, 6) if d == 4 else rng.randint(3, 4) for _ in range(d)]
+        for j in range(k):
+            cs.append({'gen': 'prod', 'routine': routine, 'M': M, 'N': N, 'K': [rng.randint(1, 2) for _ in range(d)], 'RA': [1] + [2] * (d - 1) + [1],
+                       'RB': [1] + [4] * (d - 1) + [1], 'vals': 'deep4', 'eps': [1e-12, 3e-12, 1e-11][(i // 4) % 3], 'guess': ['none', 'user'][(i // 4) % 2], 'dtype': 'f64',
+                       'vseed': rng.randrange(2 ** 40), 'RG': [1] + [3] * (d - 1) + [1], 'sidx': j, 'scale': 1.0, 'tinyeps': True})
+    # directed: products with a PRESCRIBED spectrum 1, 1e-4, 1e-8, t on every bond (t = 3e-11 .. 8e-11) at eps = 1e-12: second operand sum_j s_j u_j x v_j x w_j with orthonormal
+    # factors, first operand a rank-one orthogonal operator (a rank-one sign tensor for the Hadamard product), so the product has exactly that spectrum; the
+    # component t >= 30 eps must survive
+    for i in range(8 if not T else 64):
+        routine = ROUTINES[i % 4]
+        n3 = [rng.randint(4, 6) for _ in range(3)]
+        for j in range(k):
+            cs.append({'gen': 'prod', 'routine': routine, 'M': list(n3), 'N': list(n3), 'K': [rng.randint(1, 2) for _ in range(3)], 'RA': [1, 1, 1, 1], 'RB': [1, 4, 4, 1], 'vals': 'gauss',
+                       'eps': 1e-12, 'guess': ['none', 'user'][(i // 4) % 2], 'dtype': 'f64', 'vseed': rng.randrange(2 ** 40), 'RG': [1, 3, 3, 1], 'sidx': j, 'scale': 1.0,
+                       'tail4': [3e-11, 5e-11, 8e-11][(i // 4) % 3]})
     # directed: order 1 and 2, singleton modes, zero operands
     for routine in ROUTINES:
         for (M, N) in [([3], [4]), ([1], [1]), ([2, 3], [3, 2]), ([1, 4], [2, 1]), ([2, 1, 2], [1, 3, 1])]:
@@ -182,6 +202,36 @@ def run_case(case, ctx):
         if case['guess'] == 'user':
             guess = mk(case, g, K, case['RG'], M=M, vals='gauss')
         f = (lambda a, b, c: torchtt.amen_mm(a, b, X0=c, eps=eps)) if guess is not None else (lambda a, b: torchtt.amen_mm(a, b, eps=eps))
+        ops = (A, x)
+    if case.get('tail4'):
+        ctx.count('class:prescribed-spectrum-tail')
+        sig = torch.tensor([1.0, 1e-4, 1e-8, case['tail4']], dtype=torch.float64)
+
+        def spectrum_cores(modes):
+            cs_ = []
+            for k_, n_k in enumerate(modes):
+                Q = gens.orth(n_k, g, torch.float64)[:, :4]
+                if k_ == 0:
+                    cs_.append((Q * sig).reshape(1, n_k, 4))
+                elif k_ == len(modes) - 1:
+                    cs_.append(Q.T.reshape(4, n_k, 1).contiguous())
+                else:
+                    c_ = torch.zeros(4, n_k, 4, dtype=torch.float64)
+                    for j_ in range(4):
+                        c_[j_, :, j_] = Q[:, j_]
+                    cs_.append(c_)
+            return cs_
+        if routine == 'amen_mm':
+            xc = spectrum_cores([n_k * k_k for n_k, k_k in zip(N, K)])
+            x = torchtt.TT([c_.reshape(c_.shape[0], n_k, k_k, c_.shape[-1]) for c_, n_k, k_k in zip(xc, N, K)])
+        else:
+            x = torchtt.TT(spectrum_cores(N))
+        if routine == 'dmrg_hadamard':
+            A = torchtt.rank1TT([torch.where(torch.rand(n_k, generator=g) < 0.5, -1.0, 1.0).to(torch.float64) for n_k in N])
+            ref = dn.D(A) * dn.D(x)
+        else:
+            A = torchtt.TT([gens.orth(n_k, g, torch.float64).reshape(1, n_k, n_k, 1) for n_k in N])
+            ref = torch.tensordot(dn.D(A), dn.D(x), dims=d)
         ops = (A, x)
     if case.get('cancel'):
         n_ = N[0]
